@@ -201,6 +201,8 @@ class Evaluator(object):
         self._stack = []
         self.unknown_count = 0
         self.assumed = []
+        self.rat_type_is_float = False      # type(<symbolic number>) folds to float (used where inputs are documented floats)
+        self._assigned_cache = {}
 
     # -------------------------------------------------------------------------------------------- helpers
     def unknown(self, reason, node=None):
@@ -721,6 +723,13 @@ class Evaluator(object):
             return v
         if isinstance(func, _ModuleScope):
             return self.global_value(func.module, e.id, e)
+        if isinstance(func, Func):
+            k = id(func)
+            if k not in self._assigned_cache:
+                self._assigned_cache[k] = set(n.id for n in ast.walk(func.node) if isinstance(n, ast.Name) and isinstance(n.ctx, ast.Store))
+            if e.id in self._assigned_cache[k]:
+                self.diag('unbound', e, 'local variable %s is read on a path that never assigned it' % e.id)
+                return self.unknown('unbound local %s' % e.id, e)
         # closure / enclosing scopes are copied into env at closure call time
         return self.global_value(func.module, e.id, e)
 
@@ -1221,6 +1230,8 @@ class Evaluator(object):
                     return Ref(Ext('builtins.bool'))
                 if isinstance(a[0], Mat):
                     return Ref(Ext('numpy.ndarray'))
+                if isinstance(a[0], Rat) and self.rat_type_is_float:
+                    return Ref(Ext('builtins.float'))
                 return alg.opaque('type', (argkey(a[0]),))
             if short == 'isinstance' and len(a) == 2:
                 if isinstance(a[0], Obj) and isinstance(a[1], Ref) and isinstance(a[1].target, Class):
